@@ -79,6 +79,11 @@ pub enum Forgery {
     CrossRequest(u8),
     /// genuine response recorded from an earlier client process
     ReplayPrevious(u8),
+    /// SREP component edited and RE-SIGNED BY THE GENUINE ONLINE KEY (a faulty server, or a delegated key in the wrong
+    /// hands): the signature chain is valid; whether the response is authentic for this request is up to the Merkle proof/window
+    ResignedGenuine(Comp, Edit),
+    /// SREP.ROOT cut to this many bytes and re-signed by the genuine online key
+    RootLen(u8),
     /// an extra, unsigned top-level field (index into EXTRA_TAGS) with a generated value is added to a genuine response
     ExtraTopLevelTag(u8, Hex),
     Truncate(u16),
@@ -332,6 +337,20 @@ fn forge(plan: &Plan, i: usize, requests: &[Vec<u8>]) -> Vec<u8> {
                 None => honest_parts(&good, pr, &filler_request(pr, 77), plan.batch, plan.index, plan.midp).assemble(),
             }
         }
+        Forgery::ResignedGenuine(c, e) => {
+            edit_comp(&mut parts, *c, e);
+            parts.resign_srep(&good.online);
+            parts.assemble()
+        }
+        Forgery::RootLen(n) => {
+            if let Some(r) = parts.srep.get(rc::ROOT) {
+                let mut r = r.to_vec();
+                r.truncate(*n as usize & !3);
+                parts.srep.set(rc::ROOT, r);
+            }
+            parts.resign_srep(&good.online);
+            parts.assemble()
+        }
         Forgery::ExtraTopLevelTag(t, v) => {
             let tag = EXTRA_TAGS[*t as usize % EXTRA_TAGS.len()];
             let mut val = v.0.clone();
@@ -409,6 +428,8 @@ fn forgery_kind(f: &Forgery) -> String {
         Forgery::CrossProtocolShape(k) => format!("cross-protocol-shape{}", k % 3),
         Forgery::CrossRequest(_) => "cross-request".into(),
         Forgery::ReplayPrevious(_) => "replay-previous-run".into(),
+        Forgery::ResignedGenuine(c, _) => format!("resigned-by-genuine-online-key:{:?}", c),
+        Forgery::RootLen(n) => format!("root-cut-to-{}-bytes-resigned", *n & !3),
         Forgery::ExtraTopLevelTag(t, _) => format!("extra-top-level-{}", rc::tag_name(EXTRA_TAGS[*t as usize % EXTRA_TAGS.len()])),
         Forgery::Truncate(_) => "truncate".into(),
         Forgery::Extend(_) => "extend".into(),
@@ -573,6 +594,8 @@ fn forgery_strategy() -> impl Strategy<Value = Forgery> {
         2 => any::<u8>().prop_map(Forgery::CrossRequest),
         2 => any::<u8>().prop_map(Forgery::ReplayPrevious),
         3 => (0u8..8, bytes(0usize..=8)).prop_map(|(t, v)| Forgery::ExtraTopLevelTag(t, v)),
+        2 => (prop::sample::select(vec![Comp::Root, Comp::Midp, Comp::Radi, Comp::SrepVer]), edit_strategy()).prop_map(|(c, e)| Forgery::ResignedGenuine(c, e)),
+        1 => (0u8..=68).prop_map(Forgery::RootLen),
         2 => any::<u16>().prop_map(Forgery::Truncate),
         1 => bytes(1usize..=16).prop_map(Forgery::Extend),
         3 => proptest::collection::vec((any::<u16>(), any::<u8>()), 1..=8).prop_map(Forgery::ByteMuts),
@@ -633,6 +656,11 @@ fn fixed_table() -> Vec<Plan> {
                 Forgery::Truncate(30_000),
                 Forgery::Truncate(0),
                 Forgery::Extend(Hex(vec![0; 4])),
+                Forgery::ResignedGenuine(Comp::Root, Edit::Bit(5)),
+                Forgery::ResignedGenuine(Comp::Root, Edit::Zero),
+                Forgery::RootLen(0),
+                Forgery::RootLen(4),
+                Forgery::RootLen(28),
                 Forgery::ExtraTopLevelTag(0, Hex(vec![0x39, 0x30, 0, 0, 0, 0, 0, 0])),
                 Forgery::ExtraTopLevelTag(1, Hex(vec![1, 0, 0, 0])),
                 Forgery::ExtraTopLevelTag(2, Hex(vec![9; 8])),
@@ -641,6 +669,14 @@ fn fixed_table() -> Vec<Plan> {
                 Forgery::ExtraTopLevelTag(5, Hex(vec![0; 8])),
             ] {
                 out.push(base(f, 6, 4, 1, 0));
+            }
+            // output modes must not change what is enforced
+            for mode in [1u8, 2] {
+                for f in [Forgery::Region(Comp::Sig, Edit::Bit(100)), Forgery::Region(Comp::CertSig, Edit::Byte(9, 3)), Forgery::WholeOtherKey, Forgery::CrossContextCert, Forgery::WindowAbove, Forgery::IndexOther(1)] {
+                    let mut p = base(f, 4, 2, 1, 0);
+                    p.mode = mode;
+                    out.push(p);
+                }
             }
             // splices and replays inside multi-request runs
             out.push(base(Forgery::CrossRequest(0), 1, 0, 3, 1));
